@@ -3,7 +3,7 @@
 From Coq Require Import List NArith ZArith Bool Lia.
 Import ListNotations.
 From JB Require Import Constants Bytes Utf8 Num NumProofs Value Codec Order OrderProofs CodecProofs RoundtripProofs DispatchProofs
-  TreeOps Path PathSem Dispatch Walk WalkProofs CompareWalk CompareWalkProofs SelWalk.
+  TreeOps Path PathInd PathSem Dispatch Walk WalkProofs CompareWalk CompareWalkProofs SelWalk.
 From JB Require TreeWf ModeProofs EvalProofs I32.
 Open Scope N_scope.
 Set Default Timeout 120.
@@ -498,21 +498,24 @@ Section WalkRel.
   Variable bs : list N.
   Variable few : position -> expr -> res bool.
   Variable fet : value -> expr -> res bool.
-  Hypothesis Hfe : forall pos x e, den bs pos x -> res_rel eq (few pos e) (fet x e).
 
-  Lemma walk_rel : forall ps fr frv, Forall2 (den bs) fr frv ->
+  Lemma walk_rel : forall ps fr frv,
+    steps_all (fun e => forall pos x, den bs pos x -> res_rel eq (few pos e) (fet x e)) ps ->
+    Forall2 (den bs) fr frv ->
     res_rel (Forall2 (den bs)) (walk_w bs few ps fr) (walk fet ps frv).
   Proof.
-    induction ps as [|p ps IH]; intros fr frv HF; cbn [walk_w walk]; [exact HF|].
+    induction ps as [|p ps IH]; intros fr frv Hfe HF; cbn [walk_w walk]; [exact HF|].
+    apply steps_all_cons in Hfe. destruct Hfe as [Hp Hfe].
     assert (Step : res_rel (Forall2 (den bs)) (do fr' <- flat_map_res (step_pos_w bs p) fr; walk_w bs few ps fr')
                                                (do fr' <- flat_map_res (select_step p) frv; walk fet ps fr')).
-    { apply (res_rel_bind (Forall2 (den bs))); [|intros a b Hab; apply IH; exact Hab].
+    { apply (res_rel_bind (Forall2 (den bs))); [|intros a b Hab; apply IH; [exact Hfe|exact Hab]].
       apply (flat_map_res_rel (den bs)); [exact HF|]. intros pos x D. apply step_pos_den. exact D. }
-    assert (Filt : forall e, res_rel (Forall2 (den bs)) (do fr' <- filter_res (fun pos => few pos e) fr; walk_w bs few ps fr')
-                                                        (do fr' <- filter_res (fun pos => fet pos e) frv; walk fet ps fr')).
-    { intros e. apply (res_rel_bind (Forall2 (den bs))); [|intros a b Hab; apply IH; exact Hab].
-      apply (filter_res_rel (den bs)); [exact HF|]. intros pos x D. apply Hfe. exact D. }
-    destruct p; try exact Step; try apply Filt; apply IH; exact HF.
+    assert (Filt : forall e, In e (step_exprs p) ->
+                     res_rel (Forall2 (den bs)) (do fr' <- filter_res (fun pos => few pos e) fr; walk_w bs few ps fr')
+                                                (do fr' <- filter_res (fun pos => fet pos e) frv; walk fet ps fr')).
+    { intros e He. apply (res_rel_bind (Forall2 (den bs))); [|intros a b Hab; apply IH; [exact Hfe|exact Hab]].
+      apply (filter_res_rel (den bs)); [exact HF|]. intros pos x D. apply (Hp e He). exact D. }
+    destruct p; try exact Step; try (apply Filt; left; reflexivity); apply IH; assumption.
   Qed.
 End WalkRel.
 
@@ -579,30 +582,42 @@ Section OnRoot.
   Definition cur_rel (c : option position) (cv : option value) : Prop :=
     match c, cv with Some p, Some x => den bs p x | None, None => True | _, _ => False end.
 
-  (* find_positions / filter_expr on positions = find_positions / filter_expr on the denoted values, for every path
-     and every expression: results, errors and panics alike *)
-  Theorem find_filter_rel : forall fuel,
-    (forall cur curv ps, cur_rel cur curv ->
-       res_rel (Forall2 (den bs)) (find_positions_w fuel bs cur ps) (find_positions fuel root curv ps)) /\
-    (forall pos x e, den bs pos x -> res_rel eq (filter_expr_w fuel bs pos e) (filter_expr fuel root x e)).
+  Lemma find_positions_with_rel few fet cur curv ps : cur_rel cur curv ->
+    steps_all (fun e => forall pos x, den bs pos x -> res_rel eq (few pos e) (fet x e)) ps ->
+    res_rel (Forall2 (den bs)) (find_positions_with_w few bs cur ps) (find_positions_with fet root curv ps).
   Proof.
-    induction fuel as [|f [IHp IHe]]; (split; [intros cur curv ps Hc|intros pos x e D]); try reflexivity.
-    - cbn [find_positions_w find_positions]. apply (res_rel_bind (den bs)).
-      + pose proof (root_position_den root Hroot) as R. destruct ps as [|[] r]; try exact R.
-        destruct cur, curv; cbn [cur_rel] in Hc; try contradiction; exact Hc.
-      + intros st stv Hst. apply (walk_rel bs _ _ IHe). constructor; [exact Hst|constructor].
-    - cbn [filter_expr_w filter_expr].
-      assert (Cmp : forall op l r, res_rel eq
+    intros Hc Hfe. unfold find_positions_with_w, find_positions_with. apply (res_rel_bind (den bs)).
+    - pose proof (root_position_den root Hroot) as R. destruct ps as [|[] r]; try exact R.
+      destruct cur, curv; cbn [cur_rel] in Hc; try contradiction; exact Hc.
+    - intros st stv Hst. apply (walk_rel bs _ _ _ _ _ Hfe). constructor; [exact Hst|constructor].
+  Qed.
+
+  (* filter_expr / find_positions on positions = filter_expr / find_positions on the denoted values, for every path
+     and every expression (of any size and nesting): results, errors and panics alike *)
+  Theorem filter_expr_rel : forall e pos x, den bs pos x -> res_rel eq (filter_expr_w bs pos e) (filter_expr root x e).
+  Proof.
+    induction e as [ps IH|v|op l r IHl IHr|op y IHy|op l r IHl IHr|ps IH] using expr_ind_steps; intros pos x D;
+      cbn [filter_expr_w filter_expr]; try reflexivity.
+    - assert (Cmp : res_rel eq
                 (do a <- expr_values_w bs pos l; do b <- expr_values_w bs pos r; exists_res (fun u => exists_res (fun w => compare_value op u w) b) a)
                 (do a <- expr_values root x l; do b <- expr_values root x r; exists_res (fun u => exists_res (fun w => compare_value op u w) b) a)).
-      { intros op l r. rewrite (res_rel_eq _ _ (expr_values_rel pos x l D)), (res_rel_eq _ _ (expr_values_rel pos x r D)). apply res_rel_refl. }
-      destruct e as [ps|v|op l r|op y|op l r|ps]; try reflexivity.
-      + destruct op; try apply Cmp;
-          (apply (res_rel_bind eq); [apply IHe; exact D|]; intros a ? <-;
-           apply (res_rel_bind eq); [apply IHe; exact D|]; intros b ? <-; reflexivity).
-      + apply (res_rel_bind (Forall2 (den bs))); [apply IHp; exact D|].
-        intros fr frv HF. cbn [res_rel]. destruct HF; reflexivity.
+      { rewrite (res_rel_eq _ _ (expr_values_rel pos x l D)), (res_rel_eq _ _ (expr_values_rel pos x r D)). apply res_rel_refl. }
+      destruct op; try apply Cmp;
+        (apply (res_rel_bind eq); [apply IHl; exact D|]; intros a ? <-;
+         apply (res_rel_bind eq); [apply IHr; exact D|]; intros b ? <-; reflexivity).
+    - apply (res_rel_bind (Forall2 (den bs))); [apply find_positions_with_rel; [exact D|exact IH]|].
+      intros fr frv HF. cbn [res_rel]. destruct HF; reflexivity.
   Qed.
+  Theorem find_positions_rel cur curv ps : cur_rel cur curv ->
+    res_rel (Forall2 (den bs)) (find_positions_w bs cur ps) (find_positions root curv ps).
+  Proof.
+    intros Hc. apply find_positions_with_rel; [exact Hc|]. apply steps_all_intro. intros e pos x D. apply filter_expr_rel. exact D.
+  Qed.
+  Theorem find_filter_rel :
+    (forall cur curv ps, cur_rel cur curv ->
+       res_rel (Forall2 (den bs)) (find_positions_w bs cur ps) (find_positions root curv ps)) /\
+    (forall pos x e, den bs pos x -> res_rel eq (filter_expr_w bs pos e) (filter_expr root x e)).
+  Proof. split; [exact find_positions_rel|intros pos x e D; apply filter_expr_rel; exact D]. Qed.
 End OnRoot.
 
 (* ---------------------------------------------------------------- normalised documents *)
@@ -650,13 +665,13 @@ Section Final.
   Hypothesis Hroot : good root.
 
   Theorem find_positions_w_good ps :
-    res_rel (Forall2 (den (enc root))) (find_positions_w PATH_FUEL (enc root) None ps) (find_positions PATH_FUEL root None ps).
-  Proof. pose proof (find_filter_rel root Hroot PATH_FUEL) as [H _]. apply (H None None ps). exact I. Qed.
+    res_rel (Forall2 (den (enc root))) (find_positions_w (enc root) None ps) (find_positions root None ps).
+  Proof. apply (find_positions_rel root Hroot None None ps). exact I. Qed.
 
   Theorem select_w_good ps m buf : select_w (enc root) ps m buf = select_t root ps m buf.
   Proof.
     unfold select_w, select_t. pose proof (find_positions_w_good ps) as R.
-    destruct (find_positions_w PATH_FUEL (enc root) None ps) as [poses|e|], (find_positions PATH_FUEL root None ps) as [items|e'|];
+    destruct (find_positions_w (enc root) None ps) as [poses|e|], (find_positions root None ps) as [items|e'|];
       cbn [res_rel] in R; try contradiction; cbn [bind]; [|congruence|reflexivity].
     destruct (is_predicate ps).
     - unfold build_predicate_result_w. destruct R; cbn [enc enc_item fst snd]; rewrite app_nil_r; reflexivity.
@@ -672,7 +687,7 @@ Section Final.
   Theorem sel_exists_w_good ps : sel_exists_w (enc root) ps = exists_t root ps.
   Proof.
     unfold sel_exists_w, exists_t. destruct (is_predicate ps); [reflexivity|]. pose proof (find_positions_w_good ps) as R.
-    destruct (find_positions_w PATH_FUEL (enc root) None ps) as [poses|e|], (find_positions PATH_FUEL root None ps) as [items|e'|];
+    destruct (find_positions_w (enc root) None ps) as [poses|e|], (find_positions root None ps) as [items|e'|];
       cbn [res_rel] in R; try contradiction; cbn [bind]; [|congruence|reflexivity].
     destruct R; reflexivity.
   Qed.
@@ -680,7 +695,7 @@ Section Final.
   Theorem sel_predicate_match_w_good ps : sel_predicate_match_w (enc root) ps = predicate_match_t root ps.
   Proof.
     unfold sel_predicate_match_w, predicate_match_t. destruct (negb (is_predicate ps)); [reflexivity|]. pose proof (find_positions_w_good ps) as R.
-    destruct (find_positions_w PATH_FUEL (enc root) None ps) as [poses|e|], (find_positions PATH_FUEL root None ps) as [items|e'|];
+    destruct (find_positions_w (enc root) None ps) as [poses|e|], (find_positions root None ps) as [items|e'|];
       cbn [res_rel] in R; try contradiction; cbn [bind]; [|congruence|reflexivity].
     destruct R; reflexivity.
   Qed.
@@ -720,26 +735,19 @@ Proof. intros H. rewrite !(select_w_enc v ps m _ H). apply ModeProofs.select_fra
 
 (* ---------------------------------------------------------------- consequences at byte level *)
 (* on paths of the parser's image (EvalProofs.step_ok / expr_ok) the selector never panics on an encoding *)
-Theorem select_w_never_panics v ps m buf k : wfb v = true ->
-  match ps with
-  | PCurrent :: r => False
-  | PRoot :: r => forallb (EvalProofs.step_ok k) r = true
-  | [PPredicate e] => EvalProofs.expr_ok k e = true
-  | r => forallb (EvalProofs.step_ok k) r = true
-  end -> select_w (enc v) ps m buf <> Panic.
+Theorem select_w_never_panics v ps m buf : wfb v = true ->
+  EvalProofs.path_ok false ps -> select_w (enc v) ps m buf <> Panic.
 Proof.
   intros H Hp. rewrite (select_w_enc v ps m buf H). unfold select_t.
-  pose proof (EvalProofs.find_positions_np PATH_FUEL (normalise v) None ps k) as NP.
-  assert (NP' : find_positions PATH_FUEL (normalise v) None ps <> Panic).
-  { apply NP. destruct ps as [|[] r]; try exact Hp. contradiction. }
-  destruct (find_positions PATH_FUEL (normalise v) None ps); cbn [bind]; [|discriminate|contradiction].
+  pose proof (EvalProofs.find_positions_np (normalise v) None ps Hp) as NP'.
+  destruct (find_positions (normalise v) None ps); cbn [bind]; [|discriminate|contradiction].
   destruct (is_predicate ps); discriminate.
 Qed.
 
 Section BytesModes.
   Variables (v : value) (ps : list path) (items : list value).
   Hypothesis Hwf : wfb v = true.
-  Hypothesis Hsel : find_positions PATH_FUEL (normalise v) None ps = Ok items.
+  Hypothesis Hsel : find_positions (normalise v) None ps = Ok items.
   Hypothesis Hnp : is_predicate ps = false.
   Lemma select_w_first_is_head buf :
     select_w (enc v) ps MFirst buf = Ok (match items with [] => (buf, []) | x :: _ => (buf ++ enc x, [lenN buf + lenN (enc x)]) end).
